@@ -6,7 +6,7 @@ V = '/verif'
 R = json.load(open(f'{V}/seeded/results.json'))
 if len(sys.argv) > 1:
     for line in open(sys.argv[1]):
-        m = re.match(r'(C\d\d-\d) (C\d\d) (CAUGHT\(failing-input\)|CAUGHT\(no-failing-input-found\)|MISSED)', line)
+        m = re.match(r'(C\d\d-\d+) (C\d\d) (CAUGHT\(failing-input\)|CAUGHT\(no-failing-input-found\)|MISSED)', line)
         if m:
             R['now'][m.group(1)] = {'CAUGHT(failing-input)': 'input', 'CAUGHT(no-failing-input-found)': 'K', 'MISSED': 'MISSED'}[m.group(3)]
             R['first'].setdefault(m.group(1), R['now'][m.group(1)])
